@@ -31,6 +31,7 @@ type DamageOp struct {
 	Col  int    `json:"col"`  // byte column (clamped)
 	Len  int    `json:"len"`
 	Text string `json:"text"`
+	Word int    `json:"word,omitempty"` // >0: the column is the start of the Word-th blank-separated word of the line (wrapping)
 }
 
 type C07Case struct {
@@ -51,6 +52,16 @@ func applyDamage(lines []string, ops []DamageOp) []string {
 		col := op.Col
 		if col > len(l) {
 			col = len(l)
+		}
+		if op.Word > 0 {
+			var starts []int
+			for i := 0; i < len(l); i++ {
+				if l[i] != ' ' && l[i] != '\t' && (i == 0 || l[i-1] == ' ' || l[i-1] == '\t') {
+					starts = append(starts, i)
+				}
+			}
+			starts = append(starts, len(l))
+			col = starts[(op.Word-1)%len(starts)]
 		}
 		// stay on rune boundaries so the text remains valid UTF-8 (invalid bytes are C06's domain)
 		for col > 0 && col < len(l) && l[col]&0xC0 == 0x80 {
@@ -376,7 +387,7 @@ func lineOr(ls []string, i int) string {
 	return "<past the end>"
 }
 
-var dmgTexts = []string{"\"", "(", "[", ")", "]", "@", "@@", "=", "==", "|", "*", ";", "!", "  ", "\t", "x", "$", "-", "1.2.3,4", "abc", "é😀", "::", "2024-13-99", " ; ", "include", "account", "P", "0x", ",,", "--5", "\x01", "E9", "()", "[]", "\"\""}
+var dmgTexts = []string{"\"", "(", "[", ")", "]", "@", "@@", "=", "==", "|", "*", ";", "!", "  ", "\t", "x", "$", "-", "1.2.3,4", "abc", "é😀", "::", "2024-13-99", " ; ", "include", "account", "P", "0x", ",,", "--5", "\x01", "\x00", "\x00", "\x7f", "\x0c", "\x1b", "\u00a0", "\u2028", "\ufeff", "E9", "()", "[]", "\"\""}
 
 func genDamage(t *rapid.T, nlines int) []DamageOp {
 	n := rapid.IntRange(1, 3).Draw(t, "nops")
@@ -386,6 +397,9 @@ func genDamage(t *rapid.T, nlines int) []DamageOp {
 			Line: rapid.IntRange(0, nlines-1).Draw(t, "dline"), Col: rapid.IntRange(0, 60).Draw(t, "dcol"), Len: rapid.IntRange(0, 12).Draw(t, "dlen")}
 		if rapid.IntRange(0, 3).Draw(t, "atstart") == 0 {
 			op.Col = rapid.IntRange(0, 12).Draw(t, "dcol2")
+		}
+		if rapid.IntRange(0, 3).Draw(t, "atword") == 0 {
+			op.Word = rapid.IntRange(1, 8).Draw(t, "dword")
 		}
 		k := rapid.IntRange(1, 3).Draw(t, "ntexts")
 		for q := 0; q < k; q++ {
